@@ -5,6 +5,7 @@ import (
 	"fmt"
 	"math/rand"
 	"sort"
+	"strings"
 
 	"verif/harness/drv"
 )
@@ -140,7 +141,9 @@ func c08Spec(rng *rand.Rand, i int) (*SessSpec, string) {
 		sp.RollbackAt[vb] = 2
 		F := sp.PreStore[vb][1]
 		_ = F
-		sp.Steps = append(sp.Steps, Step{Op: "barrier"}, Step{Op: "end", VB: vb, St: 2}, Step{Op: "waitreopen", VB: vb, N: 3})
+		// a save before the end (the checkpoint of this open exists), and new events + a save after the rolled-back re-open
+		sp.Steps = append(sp.Steps, Step{Op: "barrier"}, Step{Op: "ack", Sel: "all"}, Step{Op: "commit"}, Step{Op: "end", VB: vb, St: 2}, Step{Op: "waitreopen", VB: vb, N: 3},
+			Step{Op: "append", VB: vb, Items: []ItemSpec{{K: "m", Key: []byte("after-rollback-1"), Val: []byte("{}")}, {K: "m", Key: []byte("after-rollback-2"), Val: []byte("{}")}}}, Step{Op: "barrier"}, Step{Op: "ack", Sel: "all"}, Step{Op: "commit"})
 		kind = "rollback-on-reopen"
 	}
 	sp.Steps = append(sp.Steps, Step{Op: "barrier"})
@@ -261,6 +264,12 @@ func init() {
 					f.Prop, f.Key = "C08", "C08/offset-old-vbuuid"
 				}
 				fs = append(fs, f)
+			}
+			// what is stored after the rollback names one event of the branch the stream is open on
+			for _, f := range OracleTuples(tr) {
+				if strings.Contains(f.Key, "/stored") {
+					fs = append(fs, Finding{"C08", "stored", "C08/stored-tuple/" + f.Key[strings.LastIndex(f.Key, "/")+1:], f.Detail})
+				}
 			}
 			nt := false
 			replayed := 0
